@@ -15,6 +15,7 @@ inductive Act where
   | vins (r : Nat)         -- INSERT INTO alembic_version
   | vdel (r : Nat)         -- DELETE FROM alembic_version WHERE version_num = r
   | vupd (a b : Nat)       -- UPDATE alembic_version SET version_num = b WHERE version_num = a
+  | read                   -- the migration reads the current heads (`get_current_heads()`): no effect
   deriving DecidableEq, Repr
 
 structure Db where
@@ -34,5 +35,6 @@ def applyAct : Act → Db → Db
   | .vins r, d => { d with rows := insertSorted r d.rows }
   | .vdel r, d => { d with rows := d.rows.filter (· != r) }
   | .vupd a b, d => { d with rows := insertSorted b (d.rows.filter (· != a)) }
+  | .read, d => d
 
 end Model.Online
